@@ -276,6 +276,12 @@ def gen(rng, tier, shard, batch):
     # quotient-digit estimate of 2^64 + 1 (divisor with normalised low word > high word; operand found by solving
     # a * x mod yn in [(2^64 + 1) * yn1, yn) with a Euclid-like search)
     reqs += K.est_gt_b_requests(rng, 6 if tier == "quick" else 20, G.fD)[0]
+    # wide products whose cut-off digits are a tie (or zero) plus a non-zero multiple of 2^32 / 2^64 / 2^96
+    if batch == 0:
+        for x_, a_, y_, b_, n_ in C.wide_tie_word_products(rng)[shard::E.NCPU]:
+            reqs.append("mode " + rng.choice(MODES))
+            reqs.append("mulr %s %s %s %d" % (rng.choice(("vv", "*", "rr")), G.fD(x_ * rng.choice((1, -1)), a_), G.fD(y_, b_), n_))
+            reqs.append("k_mulr %d %d %d %s" % (x_, -y_, a_ + b_ - n_, rng.choice(MODES)))
     # all-ones / single-bit / empty 64-bit limbs in factors and divisor
     lg = G.limb_grid()
     for _ in range(150 if tier == "quick" else 600):
